@@ -875,3 +875,146 @@ Proof. intros cfg w p rq H. apply authorized_as_open. apply authorized_true_iff.
 (* the routes the table classifies as state-changing, by method and path *)
 Definition state_changing_keys : list (string * string) :=
   map (fun r => (ar_method r, ar_path r)) (filter state_changing admin_routes).
+
+(* ------------------------------------------------------------------ the other state-changing handlers *)
+Arguments is_valid_name : simpl never.
+
+Definition after_action (o : outcome) : outcome :=
+  mkOut (o_status o) (if o_status o =? 200 then o_warn o else false) (o_calls o) false.
+
+Lemma do_action_result : forall w name a ss cfg rq,
+  (forall s, run_steps cfg w rq s ss = mkOut 200 (h_warn s) (h_calls s) (h_swapped s)) ->
+  match do_action w name a init_hst with
+  | Done o => o
+  | Continue s' => run_steps cfg w rq s' ss
+  end = after_action (run_action w name a).
+Proof.
+  intros w name a ss cfg rq Hss. unfold do_action, after_action.
+  remember (run_action w name a) as o.
+  destruct (o_status o =? 200) eqn:E; simpl.
+  - rewrite Hss. simpl. apply N.eqb_eq in E. rewrite E. reflexivity.
+  - reflexivity.
+Qed.
+
+Lemma notify_only : forall cfg w rq s, run_steps cfg w rq s [SNotify] = mkOut 200 (h_warn s) (h_calls s) (h_swapped s).
+Proof. reflexivity. Qed.
+
+Theorem create_handler_runs : forall cfg w rq t c a,
+  rq_method rq = "POST"%string -> authorized cfg rq = true -> rq_body rq = BodyJson t c a ->
+  is_valid_name t = true -> (c = [] \/ is_valid_name c = true) ->
+  handle cfg w admin_routes "/api/topics" rq = after_action (run_action w "CreateTopicChannel" (mkArgs t c [])).
+Proof.
+  intros cfg w rq t c a Hm Ha Hb Ht Hc. unfold handle. rewrite Hm.
+  change (find_route admin_routes "POST" "/api/topics") with
+    (RHandler (mkRoute "POST" "/api/topics" "createTopicChannelHandler" ""
+       [AGuard; ADecode; AValid "IsValidTopicName"; AValid "IsValidChannelName"; AMut "CreateTopicChannel"; ANotify])).
+  simpl. rewrite Ha. rewrite Hb. simpl. rewrite Ht.
+  cbv beta iota delta [body_channel body_topic body_action h_body h_calls h_warn h_swapped].
+  assert (negb (Nat.eqb (length c) 0) && negb (is_valid_name c) = false) as Hv.
+  { destruct Hc as [Hc|Hc]. subst; reflexivity. rewrite Hc. apply andb_false_r. }
+  rewrite Hv.
+  cbv beta iota delta [body_channel body_topic body_action h_body h_calls h_warn h_swapped].
+  unfold do_action, after_action. remember (run_action w "CreateTopicChannel" (mkArgs t c [])) as o.
+  destruct (o_status o =? 200) eqn:E; simpl.
+  - apply N.eqb_eq in E. rewrite E. reflexivity.
+  - reflexivity.
+Qed.
+
+(* an invalid topic (or channel) name is refused before anything is sent upstream *)
+Theorem create_handler_validates : forall cfg w rq t c a,
+  rq_method rq = "POST"%string -> authorized cfg rq = true -> rq_body rq = BodyJson t c a ->
+  (is_valid_name t = false \/ (c <> [] /\ is_valid_name c = false)) ->
+  handle cfg w admin_routes "/api/topics" rq = mkOut 400 false [] false.
+Proof.
+  intros cfg w rq t c a Hm Ha Hb Hv. unfold handle. rewrite Hm.
+  change (find_route admin_routes "POST" "/api/topics") with
+    (RHandler (mkRoute "POST" "/api/topics" "createTopicChannelHandler" ""
+       [AGuard; ADecode; AValid "IsValidTopicName"; AValid "IsValidChannelName"; AMut "CreateTopicChannel"; ANotify])).
+  simpl. rewrite Ha. rewrite Hb. simpl.
+  cbv beta iota delta [body_channel body_topic body_action h_body h_calls h_warn h_swapped].
+  destruct (is_valid_name t) eqn:Et.
+  - destruct Hv as [Hv|[Hc Hv]]; [discriminate|].
+    cbv beta iota delta [body_channel body_topic body_action h_body h_calls h_warn h_swapped]. rewrite Hv.
+    destruct c; [contradiction|]. reflexivity.
+  - reflexivity.
+Qed.
+
+Theorem delete_channel_handler_runs : forall cfg w rq,
+  rq_method rq = "DELETE"%string -> authorized cfg rq = true ->
+  handle cfg w admin_routes "/api/topics/:topic/:channel" rq =
+  after_action (run_action w "DeleteChannel" (mkArgs (rq_topic rq) (rq_channel rq) [])).
+Proof.
+  intros cfg w rq Hm Ha. unfold handle. rewrite Hm.
+  change (find_route admin_routes "DELETE" "/api/topics/:topic/:channel") with
+    (RHandler (mkRoute "DELETE" "/api/topics/:topic/:channel" "deleteChannelHandler" "" [AGuard; AMut "DeleteChannel"; ANotify])).
+  simpl. rewrite Ha. unfold do_action, after_action.
+  remember (run_action w "DeleteChannel" (mkArgs (rq_topic rq) (rq_channel rq) [])) as o.
+  destruct (o_status o =? 200) eqn:E; simpl.
+  - apply N.eqb_eq in E. rewrite E. reflexivity.
+  - reflexivity.
+Qed.
+
+Theorem channel_action_handler_runs : forall cfg w rq t c act name,
+  rq_method rq = "POST"%string -> authorized cfg rq = true ->
+  rq_body rq = BodyJson t c act -> rq_channel rq <> [] ->
+  action_name act true = Some name ->
+  handle cfg w admin_routes "/api/topics/:topic/:channel" rq =
+  after_action (run_action w name (mkArgs (rq_topic rq) (rq_channel rq) [])).
+Proof.
+  intros cfg w rq t c act name Hm Ha Hb Hc Hn. unfold handle. rewrite Hm.
+  change (find_route admin_routes "POST" "/api/topics/:topic/:channel") with
+    (RHandler (mkRoute "POST" "/api/topics/:topic/:channel" "channelActionHandler" ""
+       [AGuard; ADecode; AMut "PauseChannel"; ANotify; AMut "PauseTopic"; AMut "UnPauseChannel";
+        AMut "UnPauseTopic"; AMut "EmptyChannel"; AMut "EmptyTopic"])).
+  simpl. rewrite Ha. rewrite Hb. simpl.
+  destruct (rq_channel rq) as [|x r] eqn:Ec; [contradiction|]. simpl. rewrite Hn.
+  unfold do_action, after_action.
+  remember (run_action w name (mkArgs (rq_topic rq) (x :: r) [])) as o.
+  destruct (o_status o =? 200) eqn:E; simpl.
+  - apply N.eqb_eq in E. rewrite E. reflexivity.
+  - reflexivity.
+Qed.
+
+(* an action other than pause / unpause / empty is refused with nothing sent *)
+Theorem action_handler_validates : forall cfg w rq t c act,
+  rq_method rq = "POST"%string -> authorized cfg rq = true -> rq_body rq = BodyJson t c act ->
+  action_name act (negb (Nat.eqb (length (rq_channel rq)) 0)) = None ->
+  handle cfg w admin_routes "/api/topics/:topic" rq = mkOut 400 false [] false.
+Proof.
+  intros cfg w rq t c act Hm Ha Hb Hn. unfold handle. rewrite Hm.
+  change (find_route admin_routes "POST" "/api/topics/:topic") with
+    (RHandler (mkRoute "POST" "/api/topics/:topic" "topicActionHandler" ""
+       [AGuard; ADecode; AMut "PauseChannel"; ANotify; AMut "PauseTopic"; AMut "UnPauseChannel";
+        AMut "UnPauseTopic"; AMut "EmptyChannel"; AMut "EmptyTopic"])).
+  simpl. rewrite Ha. rewrite Hb. simpl. rewrite Hn. reflexivity.
+Qed.
+
+Theorem tombstone_handler_runs : forall cfg w rq t c a,
+  rq_method rq = "DELETE"%string -> authorized cfg rq = true -> rq_body rq = BodyJson t c a ->
+  is_valid_name t = true ->
+  handle cfg w admin_routes "/api/nodes/:node" rq =
+  after_action (run_action w "TombstoneNodeForTopic" (mkArgs t [] (rq_node rq))).
+Proof.
+  intros cfg w rq t c a Hm Ha Hb Ht. unfold handle. rewrite Hm.
+  change (find_route admin_routes "DELETE" "/api/nodes/:node") with
+    (RHandler (mkRoute "DELETE" "/api/nodes/:node" "tombstoneNodeForTopicHandler" ""
+       [AGuard; ADecode; AValid "IsValidTopicName"; AMut "TombstoneNodeForTopic"; ANotify])).
+  simpl. rewrite Ha. rewrite Hb. simpl. rewrite Ht.
+  cbv beta iota delta [body_channel body_topic body_action h_body h_calls h_warn h_swapped].
+  unfold do_action, after_action.
+  remember (run_action w "TombstoneNodeForTopic" (mkArgs t [] (rq_node rq))) as o.
+  destruct (o_status o =? 200) eqn:E; simpl.
+  - apply N.eqb_eq in E. rewrite E. reflexivity.
+  - reflexivity.
+Qed.
+
+(* an undecodable body is refused with nothing sent (after the identity check) *)
+Theorem bad_body_refused : forall cfg w rq p r,
+  find_route admin_routes (rq_method rq) p = RHandler r ->
+  In (ar_handler r) ["createTopicChannelHandler"; "tombstoneNodeForTopicHandler"; "topicActionHandler"; "channelActionHandler"]%string ->
+  authorized cfg rq = true -> rq_body rq = BodyBad ->
+  handle cfg w admin_routes p rq = mkOut 400 false [] false.
+Proof.
+  intros cfg w rq p r Hf Hin Ha Hb. unfold handle. rewrite Hf. simpl in Hin.
+  destruct Hin as [H|[H|[H|[H|[]]]]]; rewrite <- H; simpl; rewrite Ha; rewrite Hb; reflexivity.
+Qed.
